@@ -360,6 +360,25 @@ Proof.
   - apply (constrain_sound _ (P c false) o V H2 (conj Hh Hg) Hm).
 Qed.
 
+Lemma member_boolop_merge : forall c V o, member o V = true -> member o (boolop_merge V c) = true.
+Proof.
+  induction c; intros V o Hm; simpl; try exact Hm.
+  - apply IHc. exact Hm.
+  - rewrite member_app, Hm. reflexivity.
+  - rewrite member_app, Hm. reflexivity.
+Qed.
+
+Theorem narrow_e2e_keeps_value_partial : forall V c pol o,
+  member o V = true -> holds c o = Some pol -> c02_guard c o = true ->
+  member o (narrow_e2e V c pol) = true.
+Proof.
+  intros V c pol o Hm Hh Hg. unfold narrow_e2e. destruct (cond_sound c) as [H1 H2].
+  pose proof (member_boolop_merge c V o Hm) as Hm'.
+  destruct pol.
+  - apply (constrain_sound _ (P c true) o _ H1 (conj Hh Hg) Hm').
+  - apply (constrain_sound _ (P c false) o _ H2 (conj Hh Hg) Hm').
+Qed.
+
 (* the three refutations of the full statement, one per guard clause *)
 Lemma promotion_negative_refuted :
   exists V c pol o, wf_obj o = true /\ cond_ok c o = true /\ member o V = true /\ holds c o = Some pol /\
